@@ -118,6 +118,7 @@ def X():
                  Row('B', 'e1', 'SubX', None, guard=9)])
     p = Program(m, ['e0', 'e1', 'e2', 'e3', 'e4', 'e5', 'e6', 'e7'])
     p.evt_extra = {'e6': 'e6(e5 const& o) : p(o.p) {}'}
+    p.full_key = True      # the stale ids of the exited submachine are part of the abstract state (explicit re-entry must not depend on them)
     return p
 
 
@@ -189,7 +190,8 @@ def T():
                  Row('M1', 'e2', 'Intr', act=4),
                  Row('Intr', 'e3', 'M2', act=5, guard=3),
                  Row('M2', 'e2', 'M1', act=6),
-                 Row('N1', 'e3', None, act=7)])
+                 Row('N1', 'e3', None, act=7),
+                 Row('M1', 'e1', 'Intr', act=8, guard=4)])      # e1 can terminate region 0 and interrupt region 1 in one step
     p = Program(m, ['e0', 'e1', 'e2', 'e3'])
     p.flags = ['F0', 'F1']
     return p
@@ -267,4 +269,32 @@ def Q2():
     return Program(m, ['e0', 'e1', 'e2', 'e3'])
 
 
-CATALOG = {f.__name__: f for f in (Q, Q1, Q2, F1, R2, R3, H2, H3, X, HIn, HIa, HIs, A, Ai, T, FL)}
+def D():
+    """state-declared deferral: D0 defers e1 and e3; leaving D0 releases them in arrival order"""
+    m = Machine('D', [['D0', 'D1', 'D2']],
+                [St('D0', deferred=['e1', 'e3'])],
+                [Row('D0', 'e0', 'D1', act=1, guard=1),
+                 Row('D1', 'e1', None, act=2),
+                 Row('D1', 'e3', 'D2', act=3, guard=2),
+                 Row('D2', 'e1', None, act=4),
+                 Row('D2', 'e0', 'D0', act=5),
+                 Row('D1', 'e0', 'D0', act=6, guard=3),
+                 Row('D0', 'e2', None, act=7),
+                 Row('D2', 'e2', 'D1', act=8)])
+    return Program(m, ['e0', 'e1', 'e2', 'e3'])
+
+
+def Da():
+    """deferral through the Defer action with a guard (conditional deferral)"""
+    m = Machine('Da', [['D0', 'D1']], [],
+                [Row('D0', 'e1', None, 'defer', guard=1),
+                 Row('D0', 'e0', 'D1', act=1, guard=2),
+                 Row('D1', 'e1', None, act=2),
+                 Row('D1', 'e0', 'D0', act=3),
+                 Row('D0', 'e2', None, act=4)])
+    p = Program(m, ['e0', 'e1', 'e2'])
+    p.sm_extra = {'Da': 'typedef int activate_deferred_events;'}
+    return p
+
+
+CATALOG = {f.__name__: f for f in (Q, Q1, Q2, D, Da, F1, R2, R3, H2, H3, X, HIn, HIa, HIs, A, Ai, T, FL)}
